@@ -112,7 +112,7 @@ CHECKS = {
     "C15": dict(
         technique="dominance/ordering of awaited RPCs + switch-table extraction of tolerated error codes + loop-shape rule (MIR)",
         text="Decides V1 (preimage provenance), V2 (Ok(None) only after the stream of one waitsendpay per PENDING-listed part is exhausted; no skip/break/timeout), V3 (tolerated "
-             "codes exactly 202/203/204/208/209; nothing else continues or becomes Ok), V4 (PENDING listing returns before the COMPLETE query is issued), V5 (filters), V6 (no tokio::time primitive on the wait path, the ClnRpc implementation of listsendpays/waitsendpay included), V7 (the ClnRpc implementation hands the node's error on with its numeric code: never through anyhow / RpcError::General).",
+             "codes exactly 202/203/204/208/209; nothing else continues or becomes Ok), V4 (PENDING listing returns before the COMPLETE query is issued), V5 (filters), V6 (no tokio::time primitive on the wait path, the ClnRpc implementation of listsendpays/waitsendpay included), V7 (the ClnRpc implementation hands the node's error on with its numeric code: never through anyhow / RpcError::General), V8 (every ClnRpc call returns the reply of an RPC made by that call: no cached listing).",
         note="Not decided: parts created after the snapshot by a pay still running in the node.", design="5/C15"),
     "C16": dict(
         technique="exit classification of pay() by dominating match arms (status-dispatch table) (MIR)",
